@@ -130,6 +130,7 @@ class Sel:
     frm: List[J]
     where_in: Optional[tuple] = None    # (Col, Query): WHERE col IN (query)
     where_exists: Optional["Query"] = None
+    where_cmp: Optional[tuple] = None   # (Query, Query): WHERE (query) = (query)
     group: bool = False
     having_scalar: Optional["Query"] = None
 
@@ -251,6 +252,9 @@ class Renderer:
             out += " WHERE %s IN (%s)" % (self.expr(c, s.frm), self.query(q))
         if s.where_exists is not None:
             out += (" AND" if s.where_in is not None else " WHERE") + " EXISTS (%s)" % self.query(s.where_exists)
+        if s.where_cmp is not None:
+            out += (" AND" if (s.where_in is not None or s.where_exists is not None) else " WHERE") + \
+                " (%s) = (%s)" % (self.query(s.where_cmp[0]), self.query(s.where_cmp[1]))
         if s.group:
             cols = [self.expr(i.e, s.frm) for i in s.items if isinstance(i.e, Col)]
             if cols:
@@ -324,7 +328,7 @@ def _unqualified_tables(q):
                     yield j.item
             else:
                 yield from _unqualified_tables(j.item.q)
-        for sub in ([q.where_in[1]] if q.where_in else []) + [q.where_exists, q.having_scalar]:
+        for sub in ([q.where_in[1]] if q.where_in else []) + [q.where_exists, q.having_scalar] + list(q.where_cmp or ()):
             if sub is not None:
                 yield from _unqualified_tables(sub)
     elif isinstance(q, SetOp):
@@ -437,6 +441,8 @@ class Oracle:
             self.query(s.where_exists, ctes)
         if s.having_scalar is not None:
             self.query(s.having_scalar, ctes)
+        for sub in (s.where_cmp or ()):
+            self.query(sub, ctes)
         out = []
         for it in s.items:
             e = it.e
